@@ -16,6 +16,8 @@ R-C14.5  drops: affine builtins are listed in AFFINE_EXTENSION_TYS; requires_dro
          into type args and sum rows and treats variables by their bound; insert_drops
          decides per port by calling requires_drop on the port's own type; it is called by
          CompilerContext.compile.
+R-C14.7  struct types: `copyable`, `hugr_bound` and the bound of the lowered tuple agree when type argument and
+         field vary independently (c14_struct.py, below).
 R-C14.6  no cache keyed by the *printed* form of a type (printing is not injective: type
          variables print without their bound).
 """
@@ -416,3 +418,8 @@ def run(ctx: Ctx) -> None:
     ctx.check(not hits, "R-C14.6", "no-cache-keyed-by-printed-type", "guppylang_internals/**", {"functions_scanned": n_funcs, "hits": hits},
               "a decision about a type is cached under the type's printed form; two different types that print alike (type variables "
               "with different bounds) share the cached answer")
+
+    # ------------------------------------------------------------ R-C14.7 struct: classification vs bound vs lowering
+    from . import c14_struct
+    c14_struct.run(ctx)
+
